@@ -135,12 +135,15 @@ NEGATIVE = [
     ("AFEM", "RelinkLeavesSharedDictionary", ["channels"]),              # WriteThrough
     ("DC", "CopyFailsOnGroupedIdData", []),                              # RefusedIsNoop / CopyCopiesPartner
     ("AFEM", "GroupCopyDuplicatesPair", ["channels"]),                   # GroupCopyOnce
+    ("LLFEM", "EmptyPartnerBreaksLoopCopy", []),                         # RefusedIsNoop / CopyCopiesPartner
 ]
 
 
 def negatives():
     for pair, dev, ops in NEGATIVE:
-        text = cfg(pair, 3, 1, 2, 1, ops, ["plain-same", "extent-same"], ["lo"], 2, "always", devs=[dev], export=False,
+        spare = dev == "EmptyPartnerBreaksLoopCopy"   # needs two copies and the mask that keeps the spare loop only
+        text = cfg(pair, 3, 2 if spare else 1, 2, 1, ops, ["plain-same", "extent-same"], ["lo", "mid"] if spare else ["lo"],
+                   2, "always", devs=[dev], export=False,
                    extras=2 if dev.startswith("Relink") else 0, idingroup=dev == "CopyFailsOnGroupedIdData",
                    ingroup=dev == "GroupCopyDuplicatesPair")
         with open(f"{pair}_dev_{dev}.cfg", "w", encoding="ascii") as fh:
